@@ -13,7 +13,7 @@ import squeeth_gen as G
 PROPERTY = "C03"
 LEAN_MODULES = ["Proofs.C03.Squeeth"]
 DRIVERS = ["driver_squeeth"]
-RULE = ("operation sequences of 3-16 steps at one frozen environment (spot mode, or a constant 7-point window so that TWAP = spot; pool price = "
+RULE = ("operation sequences of 3-16 steps (vault operations and buy_squeeth / sell_squeeth in both parameter forms) at one frozen environment (spot mode, or a constant 7-point window so that TWAP = spot; pool price = "
         "the squeeth row's oSQTH price), amounts from the C14 generator (zero, negative, exact balance, balance*(1+1e-6), oversized, unknown keys); "
         "after every call Broker.get_account_status(prices).net_value and every raw holding; bucket = (operation, outcome, argument class, "
         "value effect class)")
@@ -83,6 +83,20 @@ def oracle(ctx, o, nv0, nv1, prices):
         return "nv-unavailable"
     allowance = touched_dust(o, prices) + abs(nv0) * F(1, 10 ** 12)
     gain = nv1 - nv0
+    # --- a trade of the long side loses exactly the fee it reports (C03_squeeth_buy/sell_loses_fee_within_dust): fee in WETH for a buy, in oSQTH
+    #     for a sell, valued at the bar's prices; a rejected trade or a trade of 0 loses nothing; vaults / positions are never touched
+    if k in ("buy", "sell"):
+        fee_value = F(0)
+        if o.err is None:
+            fee_value = L.fr(o.out[0]) * F(prices["WETH" if k == "buy" else "OSQTH"])
+            if fee_value < 0:
+                ctx.violate(f"squeeth.trade.negative-fee:{k}", f"{k}_squeeth {o.op} reports fee {o.out[0]}", o.replay())
+        if abs(gain + fee_value) > allowance:
+            ctx.violate(f"squeeth.trade.fee-not-the-loss:{k}:{acc}", f"{k}_squeeth {o.op} ({acc}) moved the net value from {float(nv0):.12g} to {float(nv1):.12g} "
+                        f"({float(gain):.6g}); the reported fee is worth {float(fee_value):.6g} (allowed dust {float(allowance):.3g})", o.replay())
+        ctx.count("trades_fee_checked")
+        if L.state_diff(dict(o.before, wallet=[]), dict(o.after, wallet=[])):
+            ctx.violate(f"squeeth.trade.touches-vaults:{k}", f"{k}_squeeth {o.op} changed vaults / positions", o.replay())
     if gain > allowance:
         causes, explained = explain(o, prices)
         if causes and gain <= allowance + explained * (1 + F(1, 10 ** 9)):
